@@ -4,3 +4,4 @@ pub mod forms;
 pub mod rel;
 pub mod ecorder;
 pub mod smooth;
+pub mod ec;
